@@ -423,6 +423,21 @@ func checkC04(c *hx.Checker) {
 			}
 		}
 	}
+	// a zero scale factor does not erase a non-finite term: 0 * Inf = NaN (alpha = 0 with Inf / NaN in the product - finite operands whose product overflows float32 are left out: whether the intermediate is held in float32 is not fixed -,
+	// beta = 0 with Inf / NaN in C)
+	for _, special := range []float64{math.Inf(1), math.NaN(), math.Inf(-1)} {
+		for _, ab := range [][2]float32{{0, 1}, {0, 0}, {1, 0}, {0, 0.5}} {
+			A, B, C := linFill(ref.F32, []int{2, 3}, 2), linFill(ref.F32, []int{3, 2}, 5), linFill(ref.F32, []int{2}, 8)
+			A.V[1] = ref.EncF(ref.F32, special)
+			exp, err := ref.Gemm(A, B, C, ab[0], ab[1], false, false)
+			jobs = append(jobs, newJob("Gemm", []hx.Attr{hx.AFloat("alpha", ab[0]), hx.AFloat("beta", ab[1])}, []*ref.T{A, B, C}, []*ref.T{exp}, err, hx.DCompute, hx.Dot, "op", nil, fmt.Sprintf("zero-scale non-finite product %v ab=%v", special, ab), "non-finite", "zero-scale"))
+			C2 := linFill(ref.F32, []int{2}, 8)
+			C2.V[0] = ref.EncF(ref.F32, special)
+			A2 := linFill(ref.F32, []int{2, 3}, 2)
+			exp2, err2 := ref.Gemm(A2, linFill(ref.F32, []int{3, 2}, 5), C2, ab[0], ab[1], false, false)
+			jobs = append(jobs, newJob("Gemm", []hx.Attr{hx.AFloat("alpha", ab[0]), hx.AFloat("beta", ab[1])}, []*ref.T{A2, linFill(ref.F32, []int{3, 2}, 5), C2}, []*ref.T{exp2}, err2, hx.DCompute, hx.Dot, "op", nil, fmt.Sprintf("zero-scale non-finite C %v ab=%v", special, ab), "non-finite", "zero-scale"))
+		}
+	}
 	// integer MatMul (honoured exactly, in wrapping integer arithmetic as numpy does, or refused): elements and partial
 	// products beyond 2^53, operands near 2^31 whose large partial products cancel to a small result
 	for _, ic := range []struct {
